@@ -75,8 +75,15 @@ def r16a(ctx):
                 ctx.bad(cid, c.module.loc(m.node), f"{cid} never fills self.operands: the object cannot be rebuilt from (type, operands)")
     # new: the core constructor keeps all operands (defaults filled, nothing dropped)
     new = model.method(core, "__new__", own=True).node
-    t = ast.unparse(new)
-    good = "inst.operands = [_unpack_collections(o) for o in operands]" in t and "operands.append(cls._defaults[parameter])" in t
+    from sa.rules.util import pfind
+
+    good = False
+    for _, b in pfind("V_inst.operands = [_unpack_collections(V_o) for V_o in V_ops]", new):
+        # the same list receives the keyword value or the default of every parameter not given positionally
+        dflt = pfind("V_ops.append(cls._defaults[V_p])", new, {"V_ops": b["V_ops"]})
+        kw = pfind("V_ops.append(kwargs.pop(V_p))", new, {"V_ops": b["V_ops"]})
+        start = pfind("V_ops = list(args)", new, {"V_ops": b["V_ops"]})
+        good = good or bool(dflt and kw and start)
     (ctx.ok if good else ctx.bad)("_core.Expr.__new__:operands", core.module.loc(new), "operands = all positional + keyword + default values" if good else "Expr.__new__ no longer stores every parameter's value (given or default) in operands")
     # collection / wrappers
     fb = model.cls("FrameBase")
